@@ -148,7 +148,56 @@ def gen_c17(r, tier):
                 ops[-1]['stdin'] = True
         else:
             ops.extend(gen_fault(r, spec, inp))
+    for op in ops:
+        if op['op'] == 'cli' and not op.get('fault'):
+            if op['cmd'] == 'discover' and r.chance(0.15):
+                op['argv'].insert(1, '-7')
+            if op['cmd'] == 'detect' and r.chance(0.2):
+                op['argv'].append(r.pick(['-a', '-f', '-7']))
+            op['argv'] = respell(r, op['argv'])
     return {'config': {'frames': [spec]}, 'ops': ops}
+
+
+LONG = {'-r': '--rex', '-R': '--norex', '-7': '--ascii',
+        '-t': '--type_checking', '--epsilon': '-epsilon', '-a': '--all',
+        '-f': '--fields'}
+SHORT = {v: k for k, v in LONG.items()}
+
+
+def respell(r, argv):
+    """The same invocation under other documented spellings of its flags
+    (long/short forms, --flag=value)."""
+    out = []
+    i = 0
+    while i < len(argv):
+        x = argv[i]
+        if x in LONG and r.chance(0.4):
+            x = LONG[x]
+        elif x in SHORT and r.chance(0.3):
+            x = SHORT[x]
+        if x in ('--epsilon', '--type_checking') and i + 1 < len(argv) \
+                and r.chance(0.3):
+            out.append('%s=%s' % (x, argv[i + 1]))
+            i += 2
+            continue
+        out.append(x)
+        i += 1
+    return out
+
+
+def canon(argv):
+    """argv with every flag in the one spelling the oracle helpers read."""
+    out = []
+    for x in argv:
+        if x.startswith('--') and '=' in x:
+            k, v = x.split('=', 1)
+            out += [k, v]
+        else:
+            out.append(x)
+    fix = {'--rex': '-r', '--norex': '-R', '--ascii': '-7',
+           '--type_checking': '-t', '-epsilon': '--epsilon', '--all': '-a',
+           '--fields': '-f'}
+    return [fix.get(x, x) for x in out]
 
 
 def gen_verify_flags(r):
@@ -331,6 +380,7 @@ def op_cli(ctx, op):
     W = ctx.W
     cwd = W.path('cwd')
     argv = list(op['argv'])
+    real_argv = list(argv)
     outp = W.path('cwd', op['out']) if op.get('out') and op['out'] != '-' \
         else None
     pre = None
@@ -341,7 +391,11 @@ def op_cli(ctx, op):
         with io.open(W.path('cwd', op['input']), encoding='utf-8') as f:
             stdin_text = f.read()
     before = fsaudit.snapshot([cwd])
-    status, exc, ret, out, err = run_cli(ctx, argv, stdin_text)
+    status, exc, ret, out, err = run_cli(ctx, real_argv, stdin_text)
+    if canon(argv) != argv:
+        ctx.stats['probes']['alternative_flag_spellings'] += 1
+    # from here on argv is the canonical spelling (what the flags mean)
+    argv = canon(argv)
     after = fsaudit.snapshot([cwd])
     delta = fsaudit.diff(before, after, ignore_mtime=True)
     # .tdda files carry wall-clock creation stamps (the clock is not
